@@ -1,11 +1,12 @@
 #!/usr/bin/env python3
 """Regression over the stored seeded changes: apply each /verif/seeded/<id>-<k>/patch.diff to
-/repo, run the check(s) that are recorded as catching it, undo the change.
+a scratch worktree of /repo (never to /repo itself), run the check(s) that are recorded as
+catching it, undo the change.
 
 usage: seed_regress.py [<id-k> ...]        (default: all)
 
 Evidence of these runs goes to /tmp/seed_evidence (never to /verif/evidence).  The result table
-is written to seeded/regress.json and printed.  /repo must be clean.
+is written to seeded/regress.json and printed.
 """
 import json
 import os
@@ -13,7 +14,9 @@ import subprocess
 import sys
 
 VERIF = os.path.dirname(os.path.dirname(os.path.abspath(__file__)))
-REPO = "/repo"
+# a dedicated scratch worktree (outside /repo and /verif) so that /repo itself stays untouched;
+# `VERIF_REPO` makes the harness build and test that tree
+REPO = os.environ.get("SEED_WT", "/work/seedwt")
 
 
 def sh(cmd, cwd=None, env=None, timeout=3600):
@@ -28,12 +31,13 @@ def main():
                    if os.path.isdir(os.path.join(VERIF, "seeded", d)))
     if want:
         seeds = [s for s in seeds if s in want]
-    rc, out = sh(f"git -C {REPO} status --porcelain --untracked-files=no")
-    if out.strip():
-        print("REPO NOT CLEAN, aborting:", out)
+    sh(f"git -C /repo worktree remove --force {REPO}")
+    rc, out = sh(f"git -C /repo worktree add --detach {REPO} HEAD")
+    if rc != 0:
+        print("cannot create scratch worktree:", out)
         return 2
     res = {}
-    env = dict(os.environ, VERIF_EVIDENCE_DIR="/tmp/seed_evidence")
+    env = dict(os.environ, VERIF_EVIDENCE_DIR="/tmp/seed_evidence", VERIF_REPO=REPO)
     for s in seeds:
         d = os.path.join(VERIF, "seeded", s)
         meta = json.load(open(os.path.join(d, "meta.json")))
@@ -59,6 +63,7 @@ def main():
                   "detected_with_replay": any(v["exit"] == 1 and v["with_replay"] > 0 for v in r.values())}
         print(s, json.dumps(res[s]["checks"]), "OK" if res[s]["detected_with_replay"] else "MISSED")
         sys.stdout.flush()
+    sh(f"git -C /repo worktree remove --force {REPO}")
     json.dump(res, open(os.path.join(VERIF, "seeded", "regress.json"), "w"), indent=1)
     missed = [s for s, v in res.items() if not v.get("detected_with_replay")]
     print(f"{len(res) - len(missed)}/{len(res)} reported with a replay; missed: {missed}")
